@@ -4,7 +4,7 @@ pub open spec fn mirror(w: Option<WatcherS>, pathset: Set<WatchedPath>, kind: Wa
     match w {
         None => pathset =~= Set::<WatchedPath>::empty(),
         Some(ws) => ws.kind == kind
-            && (forall|x: WatchedPath| pathset.contains(x) ==> #[trigger] ws.registered@.contains_key(x.path) && ws.registered@[x.path] == x.recursive)
+            && (forall|x: WatchedPath| #[trigger] pathset.contains(x) ==> ws.registered@.contains_key(x.path) && ws.registered@[x.path] == x.recursive)
             && (forall|p: PathS| #[trigger] ws.registered@.contains_key(p) ==> pathset.contains(WatchedPath { path: p, recursive: ws.registered@[p] })),
     }
 }
@@ -24,4 +24,97 @@ pub open spec fn after_round(env: &FEnv, w: Option<WatcherS>) -> bool {
     (env.cfg_paths@.len() == 0 ==> w is None)
     && (env.cfg_paths@.len() > 0 ==> w is Some && w->Some_0.kind == env.cfg_kind@)
     && (env.fails@ == 0 ==> converged(w, env.cfg_paths@, env.cfg_kind@))
+}
+// a record that mirrors a watcher names each path once
+pub proof fn lemma_mirror_unique_paths(w: WatcherS, pathset: Set<WatchedPath>, kind: Watcher)
+    requires mirror(Some(w), pathset, kind),
+    ensures forall|x: WatchedPath, y: WatchedPath| pathset.contains(x) && pathset.contains(y) && x.path == y.path ==> x == y,
+{
+    assert forall|x: WatchedPath, y: WatchedPath| pathset.contains(x) && pathset.contains(y) && x.path == y.path implies x == y by {
+        assert(w.registered@.contains_key(x.path) && w.registered@[x.path] == x.recursive);
+        assert(w.registered@.contains_key(y.path) && w.registered@[y.path] == y.recursive);
+    }
+}
+// the record mirrors the watcher; if nothing failed it equals the configuration: then the watcher has converged to the configuration
+pub proof fn lemma_converged(w: WatcherS, pathset: Set<WatchedPath>, cfg: Seq<WatchedPath>, added: Seq<WatchedPath>, kind: Watcher, clean: bool)
+    requires mirror(Some(w), pathset, kind), cfg.len() > 0,
+        clean ==> forall|x: WatchedPath| pathset.contains(x) ==> cfg.contains(x),
+        clean ==> forall|x: WatchedPath| cfg.contains(x) ==> pathset.contains(x) || added.contains(x),
+        clean ==> forall|j: int| 0 <= j < added.len() ==> pathset.contains(#[trigger] added[j]),
+    ensures clean ==> converged(Some(w), cfg, kind),
+{
+    if clean {
+        assert forall|i: int| 0 <= i < cfg.len() implies w.registered@.contains_key((#[trigger] cfg[i]).path) && w.registered@[cfg[i].path] == cfg[i].recursive by {
+            assert(cfg.contains(cfg[i]));
+            assert(pathset.contains(cfg[i]));
+        }
+        assert forall|p: PathS| #[trigger] w.registered@.contains_key(p) implies cfg.contains(WatchedPath { path: p, recursive: w.registered@[p] }) by {
+            assert(pathset.contains(WatchedPath { path: p, recursive: w.registered@[p] }));
+        }
+    }
+}
+pub proof fn lemma_push_contains<T>(s: Seq<T>, v: T)
+    ensures s.push(v).contains(v), forall|x: T| s.contains(x) ==> #[trigger] s.push(v).contains(x),
+{
+    assert(s.push(v)[s.len() as int] == v);
+    assert forall|x: T| s.contains(x) implies #[trigger] s.push(v).contains(x) by {
+        let i = choose|i: int| 0 <= i < s.len() && s[i] == x;
+        assert(s.push(v)[i] == x);
+    }
+}
+pub open spec fn other_mode(x: WatchedPath) -> WatchedPath { WatchedPath { path: x.path, recursive: !x.recursive } }
+// a successful unwatch of a recorded path, removed from the record, keeps the record a mirror
+pub proof fn lemma_mirror_unwatch(w0: WatcherS, w1: WatcherS, ps0: Set<WatchedPath>, ps1: Set<WatchedPath>, kind: Watcher, x: WatchedPath)
+    requires mirror(Some(w0), ps0, kind), w1.kind == w0.kind, w1.registered@ == w0.registered@.remove(x.path), // OBL:C13.fs_worker.inv_pathset_mirrors_the_active_watcher
+        ps1 =~= ps0.remove(x), // OBL:C13.fs_worker.inv_pathset_mirrors_the_active_watcher
+        forall|y: WatchedPath| ps0.contains(y) && y.path == x.path ==> y == x, // OBL:C13.fs_worker.inv_pathset_mirrors_the_active_watcher
+    ensures mirror(Some(w1), ps1, kind),
+{
+    assert forall|p: PathS| #[trigger] w1.registered@.contains_key(p) implies ps1.contains(WatchedPath { path: p, recursive: w1.registered@[p] }) by {
+        assert(w0.registered@.contains_key(p));
+    }
+}
+// a successful watch replaces the registration of that path: with the other-mode record dropped and the new one added, the record stays a mirror
+pub proof fn lemma_mirror_watch(w0: WatcherS, w1: WatcherS, ps0: Set<WatchedPath>, ps1: Set<WatchedPath>, kind: Watcher, x: WatchedPath)
+    requires mirror(Some(w0), ps0, kind), w1.kind == w0.kind, w1.registered@ == w0.registered@.insert(x.path, x.recursive), // OBL:C13.fs_worker.inv_pathset_mirrors_the_active_watcher
+        ps1 =~= ps0.remove(other_mode(x)).insert(x), // OBL:C13.fs_worker.inv_pathset_mirrors_the_active_watcher
+    ensures mirror(Some(w1), ps1, kind),
+{
+    assert forall|y: WatchedPath| #[trigger] ps1.contains(y) implies w1.registered@.contains_key(y.path) && w1.registered@[y.path] == y.recursive by {
+        if y != x { assert(ps0.contains(y)); assert(y != other_mode(x)); }
+    }
+    assert forall|p: PathS| #[trigger] w1.registered@.contains_key(p) implies ps1.contains(WatchedPath { path: p, recursive: w1.registered@[p] }) by {
+        if p != x.path { assert(w0.registered@.contains_key(p)); }
+    }
+}
+pub proof fn lemma_distinct(cfg: Seq<WatchedPath>, x: WatchedPath, y: WatchedPath)
+    requires distinct_paths(cfg), cfg.contains(x), cfg.contains(y), x.path == y.path,
+    ensures x == y,
+{
+    let i = choose|i: int| 0 <= i < cfg.len() && cfg[i] == x;
+    let j = choose|j: int| 0 <= j < cfg.len() && cfg[j] == y;
+    if i < j { assert(cfg[i].path != cfg[j].path); } else if j < i { assert(cfg[j].path != cfg[i].path); }
+}
+// one successful registration step of the to_watch loop keeps "record == configuration so far" (only claimed while nothing has failed)
+pub proof fn lemma_watch_step(cfg: Seq<WatchedPath>, ps0: Set<WatchedPath>, ps1: Set<WatchedPath>, v: Seq<WatchedPath>, pos: int, x: WatchedPath, clean: bool)
+    requires distinct_paths(cfg), 0 <= pos < v.len(), v[pos] == x,
+        forall|j: int| 0 <= j < v.len() ==> cfg.contains(#[trigger] v[j]),
+        ps1 =~= ps0.remove(other_mode(x)).insert(x), // OBL:C13.fs_worker.inv_registration_converges_to_the_configuration
+        clean ==> forall|y: WatchedPath| ps0.contains(y) ==> cfg.contains(y),
+        clean ==> forall|y: WatchedPath| cfg.contains(y) ==> ps0.contains(y) || v.contains(y),
+        clean ==> forall|j: int| 0 <= j < pos ==> ps0.contains(#[trigger] v[j]),
+    ensures
+        clean ==> forall|y: WatchedPath| ps1.contains(y) ==> cfg.contains(y),
+        clean ==> forall|y: WatchedPath| cfg.contains(y) ==> ps1.contains(y) || v.contains(y),
+        clean ==> forall|j: int| 0 <= j < pos + 1 ==> ps1.contains(#[trigger] v[j]),
+{
+    if clean {
+        assert(cfg.contains(v[pos]));
+        assert forall|y: WatchedPath| cfg.contains(y) implies ps1.contains(y) || v.contains(y) by {
+            if ps0.contains(y) && y == other_mode(x) { lemma_distinct(cfg, x, y); }
+        }
+        assert forall|j: int| 0 <= j < pos + 1 implies ps1.contains(#[trigger] v[j]) by {
+            if j < pos { assert(cfg.contains(v[j])); if v[j] == other_mode(x) { lemma_distinct(cfg, x, v[j]); } }
+        }
+    }
 }
